@@ -32,6 +32,20 @@ def correspond(ctx):
             nontrivial.add(repr((meta.get("a"), meta.get("b"), meta.get("items"), meta["k"], meta["platform"])))
         positives += impl is True
 
+    # deterministic corpus: every spelling of "all of IPv4" (incl. the zero-length prefix with any base, which on
+    # IOS is not typed 'any') and a few proper subsets, all ordered pairs, both platforms
+    ALLS = [("SAny", "any", 0, ag.ALL), (f"(SWild 0 {ag.ALL})", "0.0.0.0 255.255.255.255", 0, ag.ALL),
+            (f"(SWild 167837955 {ag.ALL})", "10.1.2.3 255.255.255.255", 0, ag.ALL),
+            ("(SPrefix 0 0%nat)", "0.0.0.0/0", 0, ag.ALL), ("(SPrefix 167837955 0%nat)", "10.1.2.3/0", 0, ag.ALL),
+            ("(SPrefix 167772160 8%nat)", "10.0.0.0/8", 167772160, ag.hostmask(8)),
+            ("(SHost 167837955)", "host 10.1.2.3", 167837955, 0),
+            (f"(SWild 0 {ag.ALL - 1})", "0.0.0.0 255.255.255.254", 0, ag.ALL - 1)]
+    for plat in ("ios", "nxos"):
+        for (c1, t1, b1_, m1_) in ALLS:
+            for (c2, t2, b2_, m2_) in ALLS:
+                add(f"run_subnet_of {PL[plat]} 16%Z {c1} {c2}",
+                    outcome(lambda: ca.Address(t1, platform=plat).subnet_of(ca.Address(t2, platform=plat))),
+                    {"k": "subnet_of", "platform": plat, "a": t1, "b": t2, "A": [b1_, m1_], "B": [b2_, m2_], "related": True})
     for i in range(n):
         plat = rnd.choice(["ios", "nxos"])
         cp = PL[plat]
